@@ -280,27 +280,43 @@ async def next_timer(loop):
         await asyncio.sleep(TICK)
 
 
-# ------------------------------------------------------------------ running one attempt
+# ------------------------------------------------------------------ running one attempt / a history of attempts in one task
 def run_attempt(sc):
-    """-> dict of observations"""
-    kind = sc['kind']
+    """-> dict of observations of the attempt `sc`.  `sc['before']` (optional): the attempts the SAME asyncio task made earlier, each a
+    scenario of its own (a reconnect loop: the task catches whatever an attempt raised — a cancellation by hand, without `uncancel()` —
+    and tries again); their observations are in `out['earlier']`, every one of them is judged like a stand-alone attempt"""
+    outs = run_history(list(sc.get('before', [])) + [sc])
+    out = outs[-1]
+    if len(outs) > 1:
+        out['earlier'] = outs[:-1]
+    return out
+
+
+def run_history(scs):
+    """the attempts `scs` made one after the other by ONE task on one loop -> list of observation dicts (one per attempt)"""
     loop = VirtualLoop()
-    ev = []              # ordered log: ['w', bytes] ['tclose'] ['msg', n] ['closecb'] ['ret', outcome] ['fed', k] ['eof'] ['cancel', pending]
-    out = {'ev': ev}
-    created = {'all': []}     # every connection the attempt opened: [(protocol, transport)]
-    p = P(sc)
-    hb = p['hb']
+    cur = {}                 # the attempt in progress (what the replaced `create_connection` serves)
 
-    class T(FakeTransport):
-        def write(tself, data):
-            FakeTransport.write(tself, data)
-            ev.append(['w', bytes(data)])
-
-        def close(tself):
-            FakeTransport.close(tself)
-            ev.append(['tclose'])
+    def new_state(sc):
+        ev = []              # ordered log: ['w', bytes] ['tclose'] ['msg', n] ['closecb'] ['ret', outcome] ['fed', k] ['eof'] ['cancel', pending]
+        p = P(sc)
+        return {'sc': sc, 'kind': sc['kind'], 'ev': ev, 'out': {'ev': ev}, 'p': p, 'hb': p['hb'], 'done': False,
+                'created': {'all': []},     # every connection the attempt opened: [(protocol, transport)]
+                'gate': None}
 
     async def fake_create_connection(factory, host=None, port=None, **kw):
+        A = cur['A']
+        sc, created, ev = A['sc'], A['created'], A['ev']
+
+        class T(FakeTransport):
+            def write(tself, data):
+                FakeTransport.write(tself, data)
+                ev.append(['w', bytes(data)])
+
+            def close(tself):
+                FakeTransport.close(tself)
+                ev.append(['tclose'])
+
         for _ in range(sc.get('delay', 0)):
             await asyncio.sleep(0)
         if sc.get('connect') == 'hang':
@@ -326,22 +342,22 @@ def run_attempt(sc):
             return -2
         return -1
 
-    async def on_msg(m):
-        if kind == 'soup':
-            ev.append(['msg', soup_token(m)])
-        elif kind == 'fix':
-            ev.append(['msg', int(m.Header.MsgSeqNum) if hasattr(m, 'Header') else -1])
-        else:
-            ev.append(['msg', app_defs(kind)[2](m)])
+    def connector(A):
+        sc, kind, p, ev = A['sc'], A['kind'], A['p'], A['ev']
 
-    async def on_close():
-        ev.append(['closecb'])
+        async def on_msg(m):
+            if kind == 'soup':
+                ev.append(['msg', soup_token(m)])
+            elif kind == 'fix':
+                ev.append(['msg', int(m.Header.MsgSeqNum) if hasattr(m, 'Header') else -1])
+            else:
+                ev.append(['msg', app_defs(kind)[2](m)])
 
-    cb = sc['mode'] == 'callback'
-    msg_cb = on_msg if cb else None
-    close_cb = on_close if p['on_close'] else None
+        async def on_close():
+            ev.append(['closecb'])
 
-    def connector():
+        msg_cb = on_msg if sc['mode'] == 'callback' else None
+        close_cb = on_close if p['on_close'] else None
         remote = ('peer', 1)
         # only what the scenario states is handed over: an absent `seq` / a `chb`,`shb` of None exercise the connector's defaults
         kw = {}
@@ -382,13 +398,19 @@ def run_attempt(sc):
             return impl.connect_async(remote, *ident, on_msg_coro=msg_cb, on_close_coro=close_cb, connect_timeout=p['ctimeout'], **kw)
         return impl.connect_async(remote, *ident, session_factory=fac, connect_timeout=p['ctimeout'], **kw)
 
-    async def attempt():
+    async def attempt(A):
+        sc, kind, ev, out, created = A['sc'], A['kind'], A['ev'], A['out'], A['created']
+        me = asyncio.current_task()
+        out['task_cancelling'] = me.cancelling()       # what this task carries from its earlier attempts (0 in a fresh task)
         try:
             c = sc.get('cancel')
             if c and c[0] == 'timeout':
-                s = await asyncio.wait_for(connector(), c[1] * TICK)
+                s = await asyncio.wait_for(connector(A), c[1] * TICK)
+            elif c and c[0] == 'timeout_ctx':
+                async with asyncio.timeout(c[1] * TICK):
+                    s = await connector(A)
             else:
-                s = await connector()
+                s = await connector(A)
             out['session'] = s
             inner = s if kind in ('soup', 'fix') else s.soup_session
             # observed in the very step in which the connector returned
@@ -398,7 +420,10 @@ def run_attempt(sc):
             out['wraps'] = inner is created.get('proto')          # the session handed back is the one that logged in
             r = 'session'
         except asyncio.CancelledError:
+            # caught by hand: the task's cancellation count (`Task.cancelling()`) stays raised for every later attempt of this task
             r = 'cancelled'
+            if sc.get('uncancel'):
+                me.uncancel()                          # the caller that tells asyncio it has dealt with the request
         except (asyncio.TimeoutError, TimeoutError):
             r = 'timeout'
         except ConnectionRefusedError:
@@ -409,25 +434,38 @@ def run_attempt(sc):
             r = 'exc:' + type(e).__name__ + ':' + err_name(e)
         ev.append(['ret', r])
         out['outcome'] = r
+        A['done'] = True
 
-    def soup_session():
-        p = created.get('proto')
-        return p
+    async def client(states):
+        """the caller: one task, its attempts one after the other (between two attempts it waits for the peer script of the next one)"""
+        for A in states:
+            await attempt(A)
+            if A['gate'] is not None:
+                s = await A['gate']
+                if s is not None:
+                    # the caller itself closes the session its earlier attempt returned (`close_by: caller`)
+                    try:
+                        await asyncio.wait_for(s.close(), 50 * A['hb'])
+                        A['out']['close'] = 'ok'
+                    except Exception as e:   # noqa
+                        A['out']['close'] = 'raised:' + err_name(e)
+                    await A['gate2']
 
-    async def main():
-        me = asyncio.current_task()
-        me.set_name('H:main')
-        task = loop.create_task(attempt(), name='H:attempt')
+    async def drive(A, task, last):
+        """the peer's script, the caller's watchdog and the inspection of what one attempt left behind"""
+        sc, kind, ev, out, created, p, hb = A['sc'], A['kind'], A['ev'], A['out'], A['created'], A['p'], A['hb']
+        cb = sc['mode'] == 'callback'
+        t0, x0 = len(loop.tasks_created), len(loop.loop_exceptions)
         rb, stream, complete, accept = stream_of(sc)
         # wait for the request
         for _ in range(60):
-            if any(e[0] == 'w' for e in ev) or task.done():
+            if any(e[0] == 'w' for e in ev) or A['done']:
                 break
             await asyncio.sleep(0)
         c = sc.get('cancel')
 
         def do_cancel():
-            pending = not task.done()
+            pending = not A['done']
             ev.append(['cancel', pending])
             if pending:
                 task.cancel()
@@ -479,13 +517,13 @@ def run_attempt(sc):
         out['fed_all'] = fed_all
         # let the attempt end (a timeout needs its timer)
         for _ in range(400):
-            if task.done():
+            if A['done']:
                 break
             await asyncio.sleep(TICK)
-        if not task.done() and sc.get('connect') == 'hang' and kind != 'fix':
+        if not A['done'] and sc.get('connect') == 'hang' and kind != 'fix':
             await asyncio.sleep(6.0)           # the ASN.1 connector takes no `connect_timeout`: the default of 5 s applies
-        out['returned'] = task.done()
-        if not task.done():
+        out['returned'] = A['done']
+        if not A['done']:
             task.cancel()
             await asyncio.sleep(hb)
         k_ret = len(ev)
@@ -519,17 +557,36 @@ def run_attempt(sc):
                         out['post'] = soup_token(m) if kind == 'soup' else app_defs(kind)[2](m)
                     except Exception as e:   # noqa
                         out['post'] = 'raised:' + err_name(e)
-                try:
-                    await asyncio.wait_for(s.close(), 50 * hb)
-                    out['close'] = 'ok'
-                except Exception as e:   # noqa
-                    out['close'] = 'raised:' + err_name(e)
+                if not last and sc.get('close_by') == 'caller':
+                    # the reconnect loop closes the session it got before it connects again
+                    A['gate2'] = loop.create_future()
+                    A['gate'].set_result(s)
+                    for _ in range(4000):
+                        if 'close' in out:
+                            break
+                        await asyncio.sleep(TICK)
+                    else:
+                        out['close'] = 'raised:never-returned'
+                else:
+                    try:
+                        await asyncio.wait_for(s.close(), 50 * hb)
+                        out['close'] = 'ok'
+                    except Exception as e:   # noqa
+                        out['close'] = 'raised:' + err_name(e)
         # the attempt has returned (and a returned session was closed): a close that is still under way — the closing task of a
         # disconnect finishes after `login()` has raised — gets one heartbeat interval to complete; then three intervals of silence
         await asyncio.sleep(hb)
-        k_end = len(ev)
+        A['k_end'] = len(ev)
         await asyncio.sleep(3 * hb)
-        out['late'] = [e for e in ev[k_end:] if e[0] in ('w', 'msg', 'closecb', 'tclose')]
+        A['t_range'], A['x_range'] = (t0, len(loop.tasks_created)), (x0, len(loop.loop_exceptions))
+        collect(A)
+
+    def collect(A):
+        """the leftovers of one attempt (taken when its observation window ends; once more when the whole history is over: whatever an
+        earlier attempt's connection still does while the task makes its later attempts is that earlier attempt's leftover)"""
+        ev, out, created = A['ev'], A['out'], A['created']
+        proto, tr = created.get('proto'), created.get('tr')
+        out['late'] = [e for e in ev[A['k_end']:] if e[0] in ('w', 'msg', 'closecb', 'tclose')]
         out['closed'] = (proto.is_closed() if proto is not None else None)
         out['tcloses'] = len(tr.closes) if tr is not None else 0
         # the leftovers of every connection the attempt opened (one, unless the connector under test opens more)
@@ -537,21 +594,46 @@ def run_attempt(sc):
         # what happened from the moment the attempt's result was known to its caller
         k = out['k_ret']
         out['after_ret'] = [e for e in ev[k + 1:] if e[0] in ('w', 'msg')]
-        out['alive'] = sorted(t.get_name() for t in loop.tasks_created if not t.done() and not t.get_name().startswith('H:'))
+        mine = loop.tasks_created[A['t_range'][0]:A['t_range'][1]]
+        out['alive'] = sorted(t.get_name() for t in mine if not t.done() and not t.get_name().startswith('H:'))
         bad = []
-        for t in loop.tasks_created:
+        for t in mine:
             if t.done() and not t.cancelled() and not t.get_name().startswith('H:') and t.exception() is not None:
                 bad.append((t.get_name(), err_name(t.exception())))
         out['task_exceptions'] = bad
 
+    states = [new_state(sc) for sc in scs]
+
+    async def main():
+        me = asyncio.current_task()
+        me.set_name('H:main')
+        for A in states[:-1]:
+            A['gate'] = loop.create_future()
+        cur['A'] = states[0]
+        task = loop.create_task(client(states), name='H:attempt')
+        for i, A in enumerate(states):
+            cur['A'] = A
+            await drive(A, task, last=(i + 1 == len(states)))
+            if A['gate'] is not None:
+                cur['A'] = states[i + 1]                 # (the caller takes its next turn only after this one yields)
+                if not A['gate'].done():
+                    A['gate'].set_result(None)
+                elif A.get('gate2') is not None:
+                    A['gate2'].set_result(None)
+        for A in states[:-1]:
+            collect(A)
+
     try:
         loop.run(main())
     finally:
-        out['loop_exceptions'] = [str(c.get('message')) + (':' + err_name(c['exception']) if c.get('exception') else '')
-                                  for c in loop.loop_exceptions]
+        exc = [str(c.get('message')) + (':' + err_name(c['exception']) if c.get('exception') else '') for c in loop.loop_exceptions]
+        for A in states:
+            lo, hi = A.get('x_range', (0, len(exc)))
+            A['out']['loop_exceptions'] = exc[lo:hi] if A is not states[-1] else exc[lo:]
         loop.shutdown()
-    out.pop('session', None)
-    return out
+    for A in states:
+        A['out'].pop('session', None)
+    return [A['out'] for A in states]
 
 
 # ------------------------------------------------------------------ the oracle (statement of C11, on the implementation alone)
@@ -572,8 +654,40 @@ def seq_mismatch(sc):
     return sc['kind'] != 'fix' and p['req_seq'] > 0 and p['acc_seq'] != p['req_seq']
 
 
+def describe_attempt(sc, out):
+    """one earlier attempt of the task, for the text of a violation"""
+    c = sc.get('cancel')
+    how = ('connect ' + sc['connect']) if sc.get('connect') else ('reply ' + '/'.join(map(str, sc['reply'])))
+    if sc.get('eof') is not None:
+        how += f', disconnect at {sc["eof"]}'
+    if c:
+        how += ', ' + {'before': 'watchdog cancel', 'after': 'watchdog cancel', 'timeout': 'wait_for', 'timeout_ctx': 'asyncio.timeout'}[c[0]]
+    r = str(out.get('outcome'))
+    if r == 'cancelled':
+        r += ' (caught by the caller' + (', uncancel()ed)' if sc.get('uncancel') else ')')
+    return f'{sc["kind"]}: {how} -> {r}'
+
+
 def oracle(sc, out):
-    """-> list of violation strings"""
+    """-> list of violation strings.  Every attempt of a history is judged by the statement of C11 for THAT attempt alone (`oracle_one`):
+    what the task went through before — attempts that were cancelled and caught, timed out, refused, sessions used and closed — is not
+    among the things the statement lets an outcome depend on"""
+    before = sc.get('before', [])
+    if not before:
+        return oracle_one(sc, out)
+    v = []
+    outs = list(out.get('earlier', [])) + [out]
+    scs = list(before) + [sc]
+    n = len(scs)
+    for i in reversed(range(n)):              # the judged (last) attempt first
+        hist = '; '.join(describe_attempt(s_, o_) for s_, o_ in zip(scs[:i], outs[:i]))
+        for what in oracle_one(scs[i], outs[i]):
+            v.append(what + (f'  [attempt {i + 1} of {n} made by one task; before it: {hist}]' if i else f'  [attempt 1 of {n} made by one task]'))
+    return v
+
+
+def oracle_one(sc, out):
+    """-> list of violation strings (one attempt)"""
     v = []
     ev = out['ev']
     rb, stream, complete, accept = stream_of(sc)
@@ -581,7 +695,7 @@ def oracle(sc, out):
     eof = sc.get('eof')
     c = sc.get('cancel')
     cancel_hit = any(e[0] == 'cancel' and e[1] for e in ev)
-    timed = bool(c and c[0] == 'timeout')
+    timed = bool(c and c[0] in ('timeout', 'timeout_ctx'))          # asyncio.wait_for / `async with asyncio.timeout()` around the connector
     reply_delivered = complete and (eof is None or eof >= len(rb)) and not (c and c[0] == 'before')
     if not out.get('returned'):
         if sc.get('connect') == 'hang' and sc['kind'] == 'fix' and not cancel_hit and not timed:
@@ -876,6 +990,101 @@ def param_scenarios(kind, rng, thorough):
     return out
 
 
+# ---- attempt histories: what the task that makes the attempt went through before
+def earlier_attempts(kind):
+    """the kinds of earlier attempt a reconnect loop lives through, by name -> scenario (each is an ordinary scenario, run by the same
+    task before the judged one and judged itself)"""
+    base = {'kind': kind, 'mode': 'callback', 'reply': ['none'], 'tail': [], 'cuts': [], 'gaps': [0]}
+    d = {
+        # (a) the peer stays silent / only heartbeats, the caller's watchdog cancels the task, the task catches the CancelledError by
+        #     hand and tries again (no `uncancel()`: `Task.cancelling()` stays raised for the rest of the task's life); the polite variant
+        'caught': dict(base, cancel=['before', 1]),
+        'caught-hb': dict(base, reply=['hb'], cancel=['after', 1, 2]),
+        'caught-uncancel': dict(base, cancel=['before', 1], uncancel=True),
+        # (b) timed out through asyncio.wait_for / `async with asyncio.timeout()` (both uncancel)
+        'wait_for': dict(base, cancel=['timeout', 3]),
+        'timeout': dict(base, cancel=['timeout_ctx', 3]),
+        # (c) refused by the OS / never established
+        'refused': dict(base, connect='refuse'),
+        'unreachable': dict(base, connect='hang'),
+        # (d) accepted, used, closed (by another task / by the task itself)
+        'closed': dict(base, reply=['accept']),
+        'closed-self': dict(base, reply=['accept'], tail=[1], mode='pull', close_by='caller'),
+        # rejected by the server; dropped inside the reply
+        'rejected': dict(base, reply=['reject', 'A']),
+        'dropped': dict(base, reply=['accept'], eof=5, eof_gap=-1),
+    }
+    if kind == 'fix':
+        del d['unreachable']          # fix.connect_async takes no connect timeout: such an attempt never ends by itself
+    return d
+
+
+def later_attempts(kind, rng, full):
+    """what the judged attempt of a history meets: every kind of reply whole and followed at once by data, a disconnect at every byte
+    offset of the reply (and in the hand-over window after it), the caller giving up at every point (the mirror: an attempt that IS
+    cancelled after an earlier, hand-caught cancellation) — the families 2–5 of `enumerate_scenarios` without the pure segmentations"""
+    out = []
+    for sc in enumerate_scenarios(kind, rng, full):
+        if 'pre' in sc or 'fix_omit' in sc or 'fix_extra' in sc or sc.get('factory') is False:
+            continue
+        if sc.get('eof') is not None or sc.get('cancel') or sc.get('connect') or not sc.get('cuts') or len(sc['cuts']) > 3:
+            out.append(sc)
+    return out
+
+
+def history_scenarios(kind, kinds, rng, full, thorough):
+    """attempt histories of one task: 2–4 attempts, the last one judged under every later_attempts() scenario"""
+    out = []
+    names = earlier_attempts(kind)
+    later = later_attempts(kind, rng, full)
+    core = [sc for sc in later_attempts(kind, rng, False) if 'delay' not in sc]
+    # 1. after a hand-caught cancellation: everything (the fully enumerated connector: every offset)
+    for sc in (later if full else core):
+        out.append(dict(sc, before=[names['caught']]))
+    if thorough:
+        for sc in later:
+            out.append(dict(sc, before=[names['caught-hb']]))
+    # 2. after each other kind of earlier attempt: a seeded sample of the later scenarios (thorough: all of the sampled-offset list)
+    for nm, e in names.items():
+        if nm == 'caught':
+            continue
+        for sc in (core if thorough else rng.sample(core, 5)):
+            out.append(dict(sc, before=[e]))
+    # 3. two and three earlier attempts, now and then through another connector
+    for _ in range(200 if thorough else 14):
+        before = []
+        for _ in range(rng.choice([2, 2, 3])):
+            k2 = rng.choice(kinds) if rng.random() < 0.3 else kind
+            d2 = earlier_attempts(k2)
+            before.append(d2[rng.choice(sorted(d2))])
+        if not any(b.get('cancel', [''])[0] in ('before', 'after') and not b.get('uncancel') for b in before) and rng.random() < 0.6:
+            before[rng.randrange(len(before))] = names[rng.choice(['caught', 'caught-hb'])]
+        out.append(dict(rng.choice(core), before=before))
+    return out
+
+
+def random_history(rng, kinds, sc):
+    """1–3 random earlier attempts in front of a random scenario"""
+    before = []
+    for _ in range(rng.choice([1, 1, 2, 3])):
+        kind = sc['kind'] if rng.random() < 0.7 else rng.choice(kinds)
+        if rng.random() < 0.5:
+            d = earlier_attempts(kind)
+            before.append(d[rng.choice(sorted(d))])
+        else:
+            e = random_scenario(rng, [kind])
+            if e.get('connect') == 'hang' and kind == 'fix' and not e.get('cancel'):
+                e['cancel'] = ['before', 2]
+            if e.get('cancel') and rng.random() < 0.3:
+                e['cancel'] = ['timeout_ctx', rng.randint(1, 9)] if e['cancel'][0] == 'timeout' else e['cancel']
+                if rng.random() < 0.3:
+                    e['uncancel'] = True
+            if rng.random() < 0.3:
+                e['close_by'] = 'caller'
+            before.append(e)
+    return dict(sc, before=before)
+
+
 def random_scenario(rng, kinds):
     kind = rng.choice(kinds)
     sc = {'kind': kind, 'mode': rng.choice(['callback', 'pull']), 'reply': rng.choice(REPLIES + [['accept']] * 6 + [['hb'], ['none']]),
@@ -921,6 +1130,36 @@ def shrink(sc, what):
     """drop scenario features while the same oracle failure persists"""
     key = what[:40]
     cur = dict(sc)
+
+    def still(cand):
+        try:
+            return any(x[:40] == key for x in oracle(cand, run_attempt(cand)))
+        except Exception:   # noqa
+            return False
+    if cur.get('before'):
+        # does it need the history at all?  which of the earlier attempts?  (then: the plainest form of each that is needed)
+        cand = {k: v for k, v in cur.items() if k != 'before'}
+        if still(cand):
+            cur = cand
+        else:
+            for e in list(cur['before']):
+                if len(cur['before']) > 1 and still(dict(cur, before=[e])):
+                    cur = dict(cur, before=[e])
+                    break
+            i = 0
+            while len(cur['before']) > 1 and i < len(cur['before']):
+                cand = dict(cur, before=cur['before'][:i] + cur['before'][i + 1:])
+                if still(cand):
+                    cur = cand
+                else:
+                    i += 1
+            for i, e in enumerate(cur['before']):
+                for plain in earlier_attempts(cur['kind']).values():
+                    if plain != e and len(plain) <= len(e):
+                        cand = dict(cur, before=cur['before'][:i] + [plain] + cur['before'][i + 1:])
+                        if still(cand):
+                            cur = cand
+                            break
     for field, val in (('tail', []), ('cuts', []), ('gaps', [0]), ('delay', 0), ('eof_turns', 0), ('eof_gap', 0), ('mode', 'callback'),
                        ('user', _ABSENT), ('pw', _ABSENT), ('sid', _ABSENT), ('acc_sid', _ABSENT), ('chb', _ABSENT), ('shb', _ABSENT),
                        ('on_close', _ABSENT), ('ctimeout', _ABSENT), ('factory', _ABSENT), ('soup_factory', _ABSENT), ('fixver', _ABSENT),
